@@ -123,6 +123,12 @@ def run_job(job):
                 res['sample'] = None
                 return res
             mods.append(b[1])
+        # stable descriptions for case keys and replays: the per-process unique grammar names
+        # are replaced by M0, M1, ...
+        kdescs = descs
+        for i, n in enumerate(names):
+            kdescs = [d.replace(n, 'M%d' % i) for d in kdescs]
+        job['_kdescs'] = kdescs
         return _run_cases(job, specs, descs, mods, res, bump, mode, spans, bytes_mode, tag)
     finally:
         for n in names:
@@ -203,7 +209,7 @@ def _run_cases(job, specs, descs, mods, res, bump, mode, spans, bytes_mode, tag)
                                         'pos': pos, 'fullparse': full, 'model': exp,
                                         'implementation': got}
                     if not ok:
-                        case = {'descs': descs, 'entry': list(ent), 'text': text, 'pos': pos,
+                        case = {'descs': job.get('_kdescs', descs), 'entry': list(ent), 'text': text, 'pos': pos,
                                 'fullparse': full}
                         key = case_key(_j(case))
                         sig = ('%s %s' % (tag, why)).strip()
